@@ -42,43 +42,24 @@ func compile(sys string, pkgs []pk) (appdef.IAppDef, string) {
 
 func main() {
 	sys := c17.SysVSQL()
-	// 11/12: comment of a nested table built on demand or in place
-	seen := map[string]int{}
-	for i := 0; i < 40; i++ {
-		d, r := compile(sys, []pk{{"github.com/company/app", "IMPORT SCHEMA 'github.com/company/pkg2';\nAPPLICATION app ( USE pkg2; );\nWORKSPACE w INHERITS pkg2.base ( TABLE A INHERITS sys.CDoc ( r ref(pkg2.N) ) );\n"},
-			{"github.com/company/pkg2", "ABSTRACT WORKSPACE base ( TABLE B INHERITS sys.CDoc ( items TABLE N (x int32) WITH Comment='nested comment' ) );\n"}})
-		if d == nil {
-			seen[r]++
-			continue
-		}
-		seen[fmt.Sprint(d.Type(appdef.NewQName("pkg2", "N")).Comment())]++
-	}
-	fmt.Println("11/12 comment of pkg2.N over 40 runs:", seen)
-	// tags
-	d, r := compile(sys, []pk{{"github.com/company/app", "APPLICATION app();\nWORKSPACE w ( TAG A; TAG B; TABLE t INHERITS sys.CDoc (x int32) WITH Tags=(A), Tags=(B); TABLE u INHERITS sys.CDoc (x int32) WITH Tags=(A, B); );\n"}})
-	fmt.Println("tags:", r)
-	if d != nil {
-		for _, n := range []string{"t", "u"} {
-			var tags []string
-			for _, tg := range d.Type(appdef.NewQName("app", n)).Tags() {
-				tags = append(tags, tg.QName().String())
+	for name, src := range map[string]string{
+		"grant sys.ParentID on CDoc": "APPLICATION app();\nWORKSPACE w ( ROLE r; TABLE t INHERITS sys.CDoc (a int32); GRANT SELECT(sys.ParentID) ON TABLE t TO r; );\n",
+		"revoke role from role":      "APPLICATION app();\nWORKSPACE w ( ROLE r; ROLE pr; GRANT pr TO r; REVOKE pr FROM r; );\n",
+		"field and container share a name": "APPLICATION app();\nWORKSPACE w ( TABLE Item INHERITS sys.CRecord (x int32); TABLE Doc INHERITS sys.CDoc (items int32, items Item NOT NULL); );\n",
+		"field and nested table share a name": "APPLICATION app();\nWORKSPACE w ( TABLE Doc INHERITS sys.CDoc (items int32, items TABLE n (x int32)); );\n",
+		"table named like the descriptor": "APPLICATION app();\nWORKSPACE W ( TABLE WDescriptor INHERITS sys.CDoc (x int32); );\n",
+		"rate of ALTER used elsewhere": "APPLICATION app();\nALTERABLE WORKSPACE W1 ();\nALTER WORKSPACE W1 ( RATE rt 1 PER HOUR; ROLE ro; );\nWORKSPACE W2 ( TABLE t INHERITS sys.CDoc (x int32); LIMIT l ON TABLE t WITH RATE rt; GRANT SELECT ON TABLE t TO ro; );\n",
+	} {
+		d, r := compile(sys, []pk{{"github.com/company/app", src}})
+		fmt.Printf("%-38s %s\n", name, strings.ReplaceAll(r, "\n", " / "))
+		if d != nil && strings.Contains(name, "share") {
+			t := d.Type(appdef.NewQName("app", "Doc"))
+			for _, f := range t.(appdef.IWithFields).UserFields() {
+				fmt.Println("      field", f.Name())
 			}
-			fmt.Println("   ", n, tags)
+			for _, c := range t.(appdef.IWithContainers).Containers() {
+				fmt.Println("      container", c.Name(), c.QName(), c.MinOccurs(), c.MaxOccurs())
+			}
 		}
 	}
-	// UNIQUEFIELD in base and heir
-	d, r = compile(sys, []pk{{"github.com/company/app", "APPLICATION app();\nWORKSPACE w ( ABSTRACT TABLE b INHERITS sys.CDoc (x int32, UNIQUEFIELD x); TABLE t INHERITS b (y int32, UNIQUEFIELD y); );\n"}})
-	fmt.Println("uniquefield:", strings.SplitN(r, "\n", 2)[0])
-	if d != nil {
-		if u := d.Type(appdef.NewQName("app", "t")).(appdef.IWithUniques).UniqueField(); u != nil {
-			fmt.Println("    t.UniqueField =", u.Name())
-		}
-	}
-	// 13: sys without TABLE BLOB, a blob field
-	sys2 := strings.Replace(sys, "TABLE BLOB INHERITS WDoc (status int32 NOT NULL);", "", 1)
-	_, r = compile(sys2, []pk{{"github.com/company/app", "APPLICATION app();\nWORKSPACE w ( TABLE t INHERITS sys.CDoc (b blob); );\n"}})
-	fmt.Println("13 blob without sys.BLOB:", sys2 != sys, strings.SplitN(r, "\n", 2)[0])
-	// tag of ALTER WORKSPACE used from another workspace
-	_, r = compile(sys, []pk{{"github.com/company/app", "APPLICATION app();\nALTERABLE WORKSPACE W1 ();\nALTER WORKSPACE W1 ( TAG tg; );\nWORKSPACE W2 ( TABLE t INHERITS sys.CDoc (x int32) WITH Tags=(tg); );\n"}})
-	fmt.Println("alter tag leak:", r)
 }
